@@ -39,6 +39,12 @@ def pool(rng):
     # an instance three labels below the domain and an SRV owned by the root name
     out.append(rr([b"inst", b"_ipp", b"_tcp", b"local"], ("T", "SRV", [("I", 0), ("I", 0), ("I", 631), ("N", NAMES[1])])))
     out.append(rr([], ("T", "SRV", [("I", 0), ("I", 0), ("I", 1), ("N", NAMES[1])])))
+    # SRV records whose target is the root name ("the service is decidedly not available", RFC 2782), a single label, and the
+    # owner itself; an MX and a PTR pointing at the root
+    out.append(rr(NAMES[4], ("T", "SRV", [("I", 0), ("I", 0), ("I", 0), ("N", [])])))
+    out.append(rr(NAMES[7], ("T", "SRV", [("I", 1), ("I", 2), ("I", 3), ("N", NAMES[7])])))
+    out.append(rr(NAMES[8], ("T", "SRV", [("I", 0), ("I", 0), ("I", 53), ("N", [b"local"])])))
+    out.append(rr(NAMES[4], ("T", "MX", [("I", 0), ("N", [])])))
     # record types above 255 next to a single address family
     out.append(rr(NAMES[0], ("T", "CAA", [("I", 0), ("B", b"issue"), ("B", b"ca.example")])))
     out.append(rr(NAMES[9], ("U", 65280, b"\x01")))
